@@ -164,6 +164,13 @@ func c14Read(r *hx.Run, caseID string, p protocol.Protocol, cas *fx.MemCAS, anch
 	r.Trans(1)
 	r.Trace(1)
 	if res.err == nil {
+		// the same provider reads the set once more before the first result is examined: same verdict, same operations, and the
+		// first result is not disturbed
+		first := string(mustJSON(res.ops))
+		ops2, err2 := ver.Provider.GetTxnOperations(&txn.SidetreeTxn{Namespace: "did:sidetree", AnchorString: anchor, TransactionTime: 5, TransactionNumber: 1, AlternateSources: alt})
+		if err2 != nil || string(mustJSON(ops2)) != first || string(mustJSON(res.ops)) != first {
+			r.Violation("repeated-read-differs", caseID, fmt.Sprintf("the same provider reading anchor %s twice: second error %v, results equal=%v, first result intact=%v", anchor, err2, string(mustJSON(ops2)) == first, string(mustJSON(res.ops)) == first), nil)
+		}
 		c14CheckOps(r, caseID, ver, anchor, res.ops)
 	}
 	return res
